@@ -179,6 +179,18 @@ TxLeaves(env, T, v) ==
 TxAnyLeaf(env, T, v, P(_, _)) ==
   LET ls == TxLeaves(env, T, v) IN \E j \in 1..Len(ls) : P(ls[j][1], ls[j][2])
 
+\* all SEQUENCE / SET nodes <<type, value>> inside v : T
+RECURSIVE TxSeqNodes(_, _, _)
+TxSeqNodes(env, T, v) ==
+  CASE T.k = "REF" -> TxSeqNodes(env, env.types[T.name], v)
+    [] T.k \in {"SEQ", "SET"} ->
+         << <<T, v>> >> \o Concat([j \in 1..Len(AllMembers(T)) |->
+            LET m == AllMembers(T)[j] IN IF v[m.n].p THEN TxSeqNodes(env, m.t, v[m.n].v) ELSE <<>>])
+    [] T.k = "CHOICE" ->
+         LET alts == AllAlts(T) IN TxSeqNodes(env, alts[MemberIndex(alts, v.a)].t, v.v)
+    [] T.k \in {"SEQOF", "SETOF"} -> Concat([j \in 1..Len(v) |-> TxSeqNodes(env, T.e, v[j])])
+    [] OTHER -> <<>>
+
 \* candidate deviation sets, smallest first: singletons, pairs, everything
 TxDevCandidates(devs) ==
   LET n == Len(devs)
